@@ -6,7 +6,7 @@ from ..callgraph import connects
 from ..effects import classify_use
 from .. import cfgx  # noqa: F401
 
-UNITS = ['base/Stream.cpp']
+UNITS = 'all'      # R7 looks at every receiver of a parsed element; R1-R6 are anchored in base/Stream.cpp
 SOCK = 'QXmpp::Private::XmppSocket'
 STATELESS = {'QString::fromUtf8', 'QString::fromLatin1', 'QString::fromLocal8Bit', 'QString::fromStdString', 'QString::fromUtf16',
              'QString::QString', 'QLatin1String::QLatin1String', 'QString::fromRawData', 'QTextCodec::toUnicode'}
@@ -167,6 +167,7 @@ def run(prog, run):
     r4_classes(prog, run, ready, accumulators)
     r5_order(prog, run)
     r6_discard(prog, run)
+    r7_dom_structure(prog, run)
 
 
 APPENDS = ('append', 'operator+=', 'push_back')
@@ -484,6 +485,9 @@ def r6_discard(prog, run):
             bo = pd.binop(pd.skip(c))
             if bo and bo[0] in ('<', '<=', '>', '>=') and n['name'] in t and any(x in t for x in ('::size()', '::length()', '::count()')):
                 bad = bad or 'depending on the size of the buffer'
+        if not ok and not bad and not _is_clearing(pd, i, how):
+            bad = 'by rewriting it in place before it has been parsed (only appending and clearing keep the not-yet-parsed text byte for byte; where a trim, cut or replacement ' \
+                  'bites depends on where the reads ended)'
         if ok and not bad:
             run.ok(rid, pd.loc(i), '%s %s: %s' % (n['name'], how, ok))
         elif not bad:
@@ -494,3 +498,128 @@ def r6_discard(prog, run):
                           'whether that happens depends on where the reads ended' % (n['name'], how, bad))
     if not seen:
         raise AnalysisBroken('C03.R6: processData never clears its buffer')
+
+
+def _is_clearing(pd, i, how):
+    """the write empties the accumulator (clear(), assignment of an empty text) rather than rewriting it"""
+    if how.split(' ')[0] in ('clear',) or how.startswith('call clear') or 'clear' in how.split(' ')[:2]:
+        return True
+    par = pd.parents().get(i)
+    while par is not None and pd.nodes[par]['k'] in ('cast', 'paren', 'tmp'):
+        par = pd.parents().get(par)
+    if par is not None and pd.nodes[par]['k'] == 'assign' and pd.nodes[par]['op'] == '=':
+        r = pd.nodes[pd.skip(pd.nodes[par]['r'])]
+        if r['k'] == 'construct' and not r.get('args'):
+            return True
+        if r['k'] in ('str', 'lit') and not (r.get('v') or r.get('s')):
+            return True
+    if par is not None and pd.nodes[par]['k'] == 'call' and pd.nodes[par].get('op') == '=' and len(pd.nodes[par].get('opargs', [])) == 2:
+        r = pd.nodes[pd.skip(pd.nodes[par]['opargs'][1])]
+        if r['k'] == 'construct' and not r.get('args'):
+            return True
+    return False
+
+
+# --------------------------------------------------------------------------- R7: received DOM trees are not restructured
+_DOM_MUTATORS = ('removeChild', 'replaceChild', 'insertBefore', 'insertAfter', 'appendChild', 'clear', 'normalize')
+_DOM_FRESH = ('cloneNode', 'createElement', 'createElementNS', 'createDocumentFragment', 'importNode')
+_DOM_RECORDS = ('QDomNode', 'QDomElement', 'QDomDocument', 'QDomDocumentFragment')
+
+
+def _dom_origin(prog, f, nid, depth=0, seen=None):
+    """where the DOM node an expression denotes comes from: 'fresh' (a clone / a newly created node / the document a local parse built), 'received' (a node handed in from outside:
+    QDomElement is a shared handle, so this is the very node the stream's delivery loop is iterating), or None when not determined.  Returns (origin, explanation)"""
+    seen = seen if seen is not None else set()
+    n = f.nodes[f.skip(nid)]
+    k = n.get('k')
+    if (f.id, f.skip(nid)) in seen or depth > 8:
+        return None, 'cycle'
+    seen.add((f.id, f.skip(nid)))
+    if k == 'call':
+        s = f.sym(n) or {}
+        if s.get('name') in _DOM_FRESH:
+            return 'fresh', s.get('name')
+        if s.get('record') in _DOM_RECORDS and n.get('obj') is not None:
+            return _dom_origin(prog, f, n['obj'], depth + 1, seen)           # navigation: toElement(), firstChildElement(), parentNode(), documentElement() ...
+        if n.get('op') and n.get('opargs'):
+            return _dom_origin(prog, f, n['opargs'][0], depth + 1, seen)
+        return None, 'call ' + (f.cname(n) or '?')
+    if k == 'construct':
+        a = n.get('args') or []
+        if not a:
+            return 'fresh', 'default-constructed'
+        return _dom_origin(prog, f, a[0], depth + 1, seen)
+    if k == 'var':
+        if n.get('vk') == 'param':
+            t = n.get('t') or ''
+            if t.rstrip().endswith('&') and not t.lstrip().startswith('const '):
+                # an in/out parameter: what the callers hand in
+                top = f
+                outs = []
+                for c, ci in prog.callers().get(top.id, []):
+                    cn = c.nodes[ci]
+                    if cn.get('k') == 'call' and n.get('pidx') is not None and n['pidx'] < len(cn.get('args', [])):
+                        outs.append(_dom_origin(prog, c, cn['args'][n['pidx']], depth + 1, seen))
+                if outs and all(o[0] == 'fresh' for o in outs):
+                    return 'fresh', 'every caller passes a fresh node'
+                bad = [o for o in outs if o[0] == 'received']
+                if bad:
+                    return bad[0]
+                return None, 'in/out parameter'
+            return 'received', 'parameter %s' % n.get('name')
+        if n.get('vk') == 'local':
+            ds = f.all_defs(n.get('decl'))
+            outs = [_dom_origin(prog, f, d, depth + 1, seen) for d in ds if d is not None]
+            bad = [o for o in outs if o[0] == 'received']
+            if bad:
+                return bad[0]
+            if outs and all(o[0] == 'fresh' for o in outs):
+                return 'fresh', outs[0][1]
+            if not outs and 'QDomDocument' in (n.get('t') or ''):
+                return 'fresh', 'local document'
+            return None, 'local'
+        if n.get('vk') == 'capture' or n.get('cap'):
+            return 'received', 'captured %s' % n.get('name')
+    if k == 'mem':
+        return None, 'member'
+    if k in ('cast', 'paren', 'tmp') and 'e' in n:
+        return _dom_origin(prog, f, n['e'], depth + 1, seen)
+    return None, k
+
+
+def r7_dom_structure(prog, run):
+    rid = run.rule('C03.R7', 'no code restructures (removeChild, replaceChild, insertBefore/After, appendChild, clear) a DOM node it was handed: QDomElement is a shared handle and the '
+                             'socket delivers the elements of one read by walking nextSiblingElement() of the very node the receiver sees, so detaching or re-parenting it drops the '
+                             'remaining stanzas of that read; restructuring is done on a cloneNode() / newly created node only', floor=1)
+    import os
+    from .. import build, facts
+    cprog = facts.Program(build.extract_control(os.path.join(build.VERIF, 'controls', 'c03_controls.cpp'), like_unit='base/Stream.cpp'))
+    got = {}
+    for g in cprog.fns.values():
+        for i, n in g.calls():
+            s = g.sym(n) or {}
+            if s.get('name') in _DOM_MUTATORS and s.get('record') in _DOM_RECORDS and n.get('obj') is not None:
+                got.setdefault(g.name, []).append(_dom_origin(cprog, g, n['obj'])[0])
+    if got.get('detach_received') != ['received'] or got.get('clear_received') != ['received'] or set(got.get('restructure_clone', [])) != {'fresh'} \
+            or set(got.get('dropChildren', [])) != {'fresh'}:
+        raise AnalysisBroken('C03.R7: positive control not recognised (%s)' % got)
+    run.instance(rid)
+    run.ok(rid, 'controls/c03_controls.cpp', 'controls: restructuring a received node is reported, restructuring a clone (also through a helper) is not')
+    nsites = 0
+    for f in prog.fns.values():
+        if f.entry is None or '/src/' not in f.file:
+            continue
+        for i, n in f.calls():
+            s = f.sym(n) or {}
+            if s.get('name') not in _DOM_MUTATORS or s.get('record') not in _DOM_RECORDS or n.get('obj') is None:
+                continue
+            nsites += 1
+            run.instance(rid)
+            origin, why = _dom_origin(prog, f, n['obj'])
+            if origin == 'received':
+                run.violation(rid, '%s#restructures-received-node#%s' % (f.outer_name(), s['name']), f.loc(i),
+                              '%s calls %s on a DOM node that was handed in (%s): the node is shared with the caller, and the stream delivery loop continues from it with '
+                              'nextSiblingElement()' % (f.display()[:60], f.fmt(i, inline=False)[:70], why))
+            else:
+                run.ok(rid, f.loc(i), '%s on %s' % (s['name'], why if origin else 'a node not derived from a parameter (%s)' % why), nontrivial=origin == 'fresh')
+    run.extra['dom_restructuring_sites'] = nsites
